@@ -12,7 +12,8 @@ EXACT_BITS = 53
 
 def model_request(case, learner):
     """driver request for one learner on one case"""
-    es = case['events']
+    # a case with a frequency column (case['freq'], file forms only): the model gets what the file means
+    es = gen.expand(case['events'], case['freq']) if case.get('freq') is not None else case['events']
     if learner.startswith('dict_ndl'):
         req = {'op': 'dict_ndl', 'events': es, 'alpha': case['alpha'], 'beta1': case['beta1'],
                'beta2': case['beta2'], 'lambda': case['lambda'], 'policy': case['policy']}
@@ -48,6 +49,8 @@ def impl_task(case, learner):
         if case.get('init_lw') is not None:
             t['init'] = case['init_lw']
             t['init_form'] = 'da'
+    if case.get('freq') is not None:
+        t['freq'] = case['freq']
     if '_timeout' in case:
         t['_timeout'] = case['_timeout']
     return t
@@ -135,11 +138,27 @@ def shrink(pool, driver, case, learner, budget=60):
             if len(es) <= 1 or steps >= budget:
                 break
             c = dict(cur, events=es[:i] + es[i + 1:])
+            if cur.get('freq') is not None:
+                c['freq'] = cur['freq'][:i] + cur['freq'][i + 1:]
             if still_fails(c):
                 cur, changed = c, True
                 break
         if changed:
             continue
+        if cur.get('freq') is not None and steps < budget:
+            # the same events written out without a frequency column, then single frequencies lowered
+            c = dict(cur, events=gen.expand(es, cur['freq']), freq=None)
+            if still_fails(c):
+                cur, changed = c, True
+                continue
+            for i, k in enumerate(cur['freq']):
+                if k > 1 and steps < budget:
+                    c = dict(cur, freq=cur['freq'][:i] + [1] + cur['freq'][i + 1:])
+                    if still_fails(c):
+                        cur, changed = c, True
+                        break
+            if changed:
+                continue
         for i, (cs, os_) in enumerate(es):
             for side in (0, 1):
                 lst = (cs, os_)[side]
@@ -187,10 +206,11 @@ def python_snippet(case, learner):
                                                 {'error': None, 'dedup': True, 'keep': False}[case['policy']]))
         lines.append("print({o: dict(r) for o, r in w.items()})")
     else:
-        lines += ["d = tempfile.mkdtemp(); p = os.path.join(d, 'events.tab.gz')",
+        lines += ["freq = %r  # third column of the event file (None: no such column)" % (case.get('freq'),),
+                  "d = tempfile.mkdtemp(); p = os.path.join(d, 'events.tab.gz')",
                   "with gzip.open(p, 'wt', encoding='utf-8') as f:",
                   "    f.write('cues\\toutcomes\\n')",
-                  "    for c, o in events: f.write('_'.join(c) + '\\t' + '_'.join(o) + '\\n')",
+                  "    for k, (c, o) in enumerate(events): f.write('_'.join(c) + '\\t' + '_'.join(o) + ('\\t%d' % freq[k] if freq else '') + '\\n')",
                   "w = ndl.ndl(p, float(F(%r)), (float(F(%r)), float(F(%r))), float(F(%r)), method=%r, n_jobs=%d, "
                   "n_outcomes_per_job=%d, events_per_temporary_file=%d, remove_duplicates=%r)"
                   % (case['alpha'], case['beta1'], case['beta2'], case['lambda'],
